@@ -11,7 +11,7 @@
 use crate::util::*;
 use hcobs::verif::{LimitDecoder, LimitEncoder};
 use hcobs::{Decoder, Encoder};
-use owning_iovec::{AnchoredSlice, ByteArena, ConsumingIovec, OwningIovec};
+use owning_iovec::{AnchoredSlice, Backref, ByteArena, ConsumingIovec, OwningIovec};
 use serde_json::{json, Map, Value};
 use std::num::NonZeroUsize;
 
@@ -154,6 +154,8 @@ impl_decoder!(
     |_this: LimitDecoder<'a>| -> Result<OwningIovec<'a>, String> { Err("harness: LimitDecoder has no take_iovec".into()) }
 );
 
+const PRE_FILL: u8 = 0xAB;
+
 fn bytes_of(v: &Value) -> Vec<u8> {
     v.as_array().map(|a| a.iter().map(|x| x.as_u64().unwrap() as u8).collect()).unwrap_or_default()
 }
@@ -229,6 +231,8 @@ fn run_phase<'a, C: Codec<'a>>(
     phase: &str,
     full: bool,
     out: &mut Trace,
+    // a placeholder the caller registered in the iovec before handing it to the codec; filled when the codec is done
+    mut pre_tok: Option<Backref>,
 ) -> Option<Vec<u8>> {
     let mut pos = 0usize;
     let mut all: Vec<u8> = Vec::new();
@@ -450,7 +454,11 @@ fn run_phase<'a, C: Codec<'a>>(
                 let take = ev == "take_iovec";
                 let r = guarded(move || {
                     let fin = if take { c.take_iovec() } else { c.finish() };
-                    fin.map(|iov| {
+                    fin.map(|mut iov| {
+                        if let Some(tok) = pre_tok.take() {
+                            let fill = vec![PRE_FILL; tok.len()];
+                            iov.backfill_or_panic(tok, &fill);
+                        }
                         let pending = iov.has_pending_backrefs();
                         let rest = match iov.flatten() {
                             Ok(v) => v,
@@ -497,25 +505,34 @@ pub fn drive_codec(ops: &str, trace: &str) {
         let pre = bytes_of(&run.cfg["pre"]);
         let pre_borrow = run.cfg["pre_m"].as_str() == Some("borrow");
         LENT_PRE.with(|c| c.set((pre.as_ptr() as usize, pre.len())));
-        fn with_pre(pre: &[u8], borrow: bool) -> OwningIovec<'_> {
+        fn with_pre(pre: &[u8], borrow: bool, hole: usize) -> (OwningIovec<'_>, Option<Backref>) {
             let mut iov = OwningIovec::new();
+            let tok = if hole > 0 { Some(iov.register_patch(&vec![0u8; hole])) } else { None };
             if borrow {
                 iov.push_borrowed(pre);
             } else {
                 iov.push_copy(pre);
             }
-            iov
+            (iov, tok)
         }
-        out.emit(&json!({"run":run.run,"ev":"reset","kind":kind,"l1":l1,"l2":l2,"prod":prod as u8,"pre":pre,
+        let pre_hole = if pre.is_empty() { 0 } else { run.cfg["pre_hole"].as_u64().unwrap_or(0) as usize };
+        // (what the iovec holds before the codec's output, once the caller's placeholder is filled)
+        let pre_full: Vec<u8> = std::iter::repeat(PRE_FILL).take(pre_hole).chain(pre.iter().copied()).collect();
+        out.emit(&json!({"run":run.run,"ev":"reset","kind":kind,"l1":l1,"l2":l2,"prod":prod as u8,"pre":pre_full,"pre_hole":pre_hole,
                          "iid":run.cfg["iid"].as_i64().unwrap_or(0),"input":input,
                          "live":ByteArena::num_live_bytes(),"chunks":ByteArena::num_live_chunks()}));
         let mut it = run.ops.iter();
         let encoded: Option<Vec<u8>> = if kind == "enc" || kind == "rt" {
             if prod {
-                let enc = if pre.is_empty() { Encoder::new() } else { Encoder::new_from_iovec(with_pre(&pre, pre_borrow)) };
-                run_phase(enc, &input, &mut it, run.run, "enc", full, &mut out).map(|all| all[pre.len().min(all.len())..].to_vec())
+                let (enc, tok) = if pre.is_empty() {
+                    (Encoder::new(), None)
+                } else {
+                    let (iov, tok) = with_pre(&pre, pre_borrow, pre_hole);
+                    (Encoder::new_from_iovec(iov), tok)
+                };
+                run_phase(enc, &input, &mut it, run.run, "enc", full, &mut out, tok).map(|all| all[pre_full.len().min(all.len())..].to_vec())
             } else {
-                run_phase(LimitEncoder::new(l1, l2), &input, &mut it, run.run, "enc", full, &mut out)
+                run_phase(LimitEncoder::new(l1, l2), &input, &mut it, run.run, "enc", full, &mut out, None)
             }
         } else {
             Some(input.clone())
@@ -526,10 +543,15 @@ pub fn drive_codec(ops: &str, trace: &str) {
                     out.emit(&json!({"run":run.run,"ev":"switch","dinput":dinput}));
                 }
                 if prod {
-                    let dec = if pre.is_empty() { Decoder::new() } else { Decoder::new_from_iovec(with_pre(&pre, pre_borrow)) };
-                    run_phase(dec, &dinput, &mut it, run.run, "dec", full, &mut out);
+                    let (dec, tok) = if pre.is_empty() {
+                        (Decoder::new(), None)
+                    } else {
+                        let (iov, tok) = with_pre(&pre, pre_borrow, pre_hole);
+                        (Decoder::new_from_iovec(iov), tok)
+                    };
+                    run_phase(dec, &dinput, &mut it, run.run, "dec", full, &mut out, tok);
                 } else {
-                    run_phase(LimitDecoder::new(l1, l2), &dinput, &mut it, run.run, "dec", full, &mut out);
+                    run_phase(LimitDecoder::new(l1, l2), &dinput, &mut it, run.run, "dec", full, &mut out, None);
                 }
             }
         }
